@@ -17,6 +17,7 @@ def write(pid, tier, seed, mod, m, wall, known, new, inconclusive):
         "max_error_observed": m["maxerr"],
         "counters": m["counters"],
         "shards": m.get("nshards"),
+        "monitor_notes": sorted(set(n[:200] for n in m["notes"]))[:10],
         "known_findings_hit": [{"what": e["what"], "count": v["count"]} for e, v in known],
         "verdict": "violated" if new else ("inconclusive" if inconclusive else "held on everything observed"),
         "inconclusive_reasons": inconclusive,
